@@ -114,7 +114,7 @@ fn model_h(op: &ROp, w: u64, t_sub: u64, evs: &[(u64, Ev)], tie: &dyn Fn(usize) 
           }
         }
         if let (Some(we), Ev::Next(v)) = (window_end, e) {
-          if we == *t && tailing && !leading && hybrid(i) {
+          if we == *t && tailing && hybrid(i) {
             out.push((Ev::Next(v.clone()), we));
             trailing = None;
             window_end = Some(t + w);
@@ -675,7 +675,7 @@ impl Scenario for C09Threads {
           break;
         }
       }
-      if !explained && case.op == ROp::ThrottleTailing {
+      if !explained && matches!(case.op, ROp::ThrottleTailing | ROp::ThrottleAll) {
         'outer: for hmask in 1..(1u32 << nt) {
           for mask in 0..(1u32 << nt) {
             if mask & hmask != 0 {
